@@ -516,6 +516,16 @@ class Representation(RepresentationBaseType):
             if self.progress.aborted():
                 return
             self.progress.text(seg.url)
+            if (
+                    seg.expected_seg_num is None and
+                    next_seg_num is not None and
+                    seg.expected_decode_time is not None and
+                    next_decode_time is not None and
+                    seg.expected_decode_time != next_decode_time):
+                # this segment does not follow on from the previous one (the
+                # manifest was refreshed after older segments had left the
+                # timeshift buffer), so its number cannot be predicted
+                next_seg_num = None
             if seg.expected_seg_num is None and next_seg_num is not None:
                 seg.expected_seg_num = next_seg_num
             elif seg.expected_seg_num != next_seg_num:
